@@ -45,6 +45,8 @@ def confirm(d):
 
 
 def evaluate(ids, seeds=("0",), tier="quick"):
+    if os.environ.get("EVAL_WT"):
+        return _evaluate(ids, seeds, tier, [])
     st = sh("git -C %s status --porcelain --untracked-files=no" % REPO).stdout.strip()
     if st:
         print("refusing: /repo has uncommitted changes")
@@ -73,9 +75,22 @@ def _evaluate(ids, seeds, tier, rows):
             print("%-28s retired: %s" % (sid, meta["retired"][:90]))
             continue
         pid = meta["property"]
-        r = sh("git -C %s apply %s" % (REPO, os.path.join(d, "patch.diff")))
+        # EVAL_WT=1: evaluate in a scratch worktree of /repo's HEAD (removed afterwards) through the
+        # WHOOSIM_REPO override, so that /repo itself stays untouched and usable meanwhile
+        use_wt = bool(os.environ.get("EVAL_WT"))
+        target = REPO
+        wt = None
+        if use_wt:
+            wt = "/tmp/eval_wt_%d" % os.getpid()
+            sh("git -C %s worktree remove --force %s" % (REPO, wt))
+            r = sh("git -C %s worktree add -q --detach %s HEAD" % (REPO, wt))
+            assert r.returncode == 0, r.stderr
+            target = wt
+        r = sh("git -C %s apply %s" % (target, os.path.join(d, "patch.diff")))
         if r.returncode != 0:
             rows.append((sid, pid, "noapply", r.stderr[:100]))
+            if wt:
+                sh("git -C %s worktree remove --force %s" % (REPO, wt))
             continue
         try:
             verdict = "missed"
@@ -88,7 +103,7 @@ def _evaluate(ids, seeds, tier, rows):
             for chk in checks:
                 for sd in seeds:
                     t0 = time.time()
-                    p = sh("cd %s && WHOOSIM_EVIDENCE_DIR=%s/out/evidence_mutated VERIF_SEED=%s timeout 1500 ./check %s --tier %s" % (VERIF, VERIF, sd, chk, tier))
+                    p = sh("cd %s && %sWHOOSIM_EVIDENCE_DIR=%s/out/evidence_mutated%s VERIF_SEED=%s timeout 1500 ./check %s --tier %s" % (VERIF, ("WHOOSIM_REPO=%s " % wt) if wt else "", VERIF, ("_%d" % os.getpid()) if wt else "", sd, chk, tier))
                     ent = per.setdefault(chk, {"caught_seeds": [], "missed_seeds": [], "signatures": []})
                     if p.returncode == 1 and ("VIOLATION property=%s" % chk) in p.stdout:
                         lines = [l for l in p.stdout.splitlines() if l.startswith("  clause=")]
@@ -108,7 +123,10 @@ def _evaluate(ids, seeds, tier, rows):
                         ent["missed_seeds"].append(sd)
             rows.append((sid, pid, verdict, detail, per))
         finally:
-            sh("git -C %s checkout -- ." % REPO)
+            if wt:
+                sh("git -C %s worktree remove --force %s" % (REPO, wt))
+            else:
+                sh("git -C %s checkout -- ." % REPO)
         print("%-28s %s %-8s %s" % rows[-1][:4])
         others = [c for c in per if c != pid and per[c]["caught_seeds"]]
         if others:
